@@ -155,7 +155,7 @@ class World:
         if "kids" in fields:
             st["kids"] = [[self.ident(c) for c in x.children] for x in N]
         if "ns" in fields:
-            st["ns"] = [sorted([q, u] for q, u in x.nsmap.items()) for x in N]
+            st["ns"] = [sorted(["~default" if q is None else q, u] for q, u in x.nsmap.items()) for x in N]    # None key = default namespace
         if "content" in fields:
             st["content"] = [self.atoms.atom(x.content) for x in N]
         if "tail" in fields:
